@@ -164,3 +164,19 @@ def first_diff(a, b):
         if x != y:
             return f"first difference at offset {i}: got ...{a[max(0, i - 30):i + 30]!r} alone ...{b[max(0, i - 30):i + 30]!r}"
     return f"length {len(a)} vs {len(b)}"
+
+
+def reductions(case):
+    """Fewer threads / preemptions, call-level instead of line-level."""
+    pre = case["preempt"]
+    if len(pre) > 1:
+        for i in range(len(pre)):
+            yield dict(case, preempt=pre[:i] + pre[i + 1:])
+    if case.get("lines"):
+        yield dict(case, lines=False)
+    if len(case["docs"]) > 2:
+        for drop in range(len(case["docs"])):
+            docs = [d for i, d in enumerate(case["docs"]) if i != drop]
+            p2 = [[t - (1 if t > drop else 0), k] for t, k in pre if t != drop]
+            if p2:
+                yield {"docs": docs, "preempt": p2, "lines": case.get("lines", False)}
